@@ -5,7 +5,7 @@ import numpy as np
 REAL = ("float32", "float64")
 CPLX = ("complex64", "complex128")
 DTS = REAL + CPLX
-LEAF = ("Dense", "Tri", "Diag", "Ident", "Scal", "Perm", "Tridiag", "House", "Sparse")
+LEAF = ("Dense", "Tri", "Diag", "Ident", "Scal", "Perm", "Tridiag", "House", "Sparse", "Gen")
 COMP = ("Sum", "Prod", "Kron", "BDiag", "Transp", "Adj", "KronSum", "Sliced", "Concat")
 
 
@@ -54,11 +54,15 @@ class Gen:
             opts.append("Tri")
         if "Sparse" in self.kinds:
             opts.append("Sparse")
+        if "Gen" in self.kinds:
+            opts.append("Gen")
         if m == n:
             opts += [k for k in ("Diag", "Ident", "Scal", "Perm", "Tridiag", "House") if k in self.kinds]
         k = r.choice(opts)
         if k == "Dense":
             return dict(k="Dense", dt=dt, a=[[self.val(dt) for _ in range(n)] for _ in range(m)])
+        if k == "Gen":
+            return gen_leaf(self, m, n)
         if k == "Tri":
             lower = r.random() < 0.5
             a = [[self.val(dt) if ((j <= i) if lower else (j >= i)) else [0, 0] for j in range(n)] for i in range(m)]
@@ -171,6 +175,26 @@ class Gen:
 SQUARE_ONLY = ("Diag", "Ident", "Scal", "Perm", "Tridiag", "House", "KronSum")
 
 
+def gen_leaf(gen, m, n):
+    """operators defined by a product routine rather than by a payload: LinearOperator(matmat=...), no_dispatch, Kernel,
+    Jacobian, Hessian (real float64; exact integer derivatives supplied with the map, see shim.QuadMap / QuadForm)"""
+    r = gen.rnd
+    vias = ["matmat", "nodispatch", "kernel", "jacobian"] + (["hessian"] if m == n else [])
+    via = r.choice(vias)
+    a = [[[r.randint(-gen.vmax, gen.vmax), 0] for _ in range(n)] for _ in range(m)]
+    t = dict(k="Gen", dt="float64", a=a, via=via)
+    if via == "hessian":
+        for i in range(m):
+            for j in range(i):
+                a[i][j] = a[j][i]
+    if via == "kernel":
+        t["bs"] = [r.randint(1, m + 1), r.randint(1, n + 1)]
+    if via == "jacobian":
+        t["x"] = [r.randint(-2, 2) for _ in range(n)]
+        t["Q"] = [[[r.randint(-1, 1) for _ in range(n)] for _ in range(n)] for _ in range(m)]
+    return t
+
+
 def rooted(gen, kind, m=None, n=None, cplx=False, depth=1):
     """a tree whose ROOT has the given kind; m / n prescribe rows / columns when not None. Returns None if impossible."""
     r = gen.rnd
@@ -187,6 +211,8 @@ def rooted(gen, kind, m=None, n=None, cplx=False, depth=1):
     d = depth - 1
     if kind == "Dense":
         return dict(k="Dense", dt=dt, a=[[gen.val(dt) for _ in range(n)] for _ in range(m)])
+    if kind == "Gen":
+        return gen_leaf(gen, m, n)
     if kind == "Tri":
         if m != n:
             return None
@@ -259,7 +285,7 @@ def rooted(gen, kind, m=None, n=None, cplx=False, depth=1):
 
 def shape(t):
     k = t["k"]
-    if k in ("Dense", "Tri"):
+    if k in ("Dense", "Tri", "Gen"):
         return (len(t["a"]), len(t["a"][0]) if t["a"] else 0)
     if k == "Sparse":
         return (t["m"], t["n"])
@@ -351,6 +377,27 @@ def build(t):
         return ops.Dense(arr(t["a"], t["dt"]))
     if k == "Tri":
         return ops.Triangular(arr(t["a"], t["dt"]), lower=t["lower"])
+    if k == "Gen":
+        import shim
+        Mx = arr(t["a"], "float64")
+        m_, n_ = Mx.shape
+        via = t["via"]
+        if via == "matmat":
+            return ops.LinearOperator(np.float64, (m_, n_), matmat=lambda X, Mx=Mx: Mx @ X)
+        if via == "nodispatch":
+            return cola.fns.no_dispatch(ops.Dense(Mx))
+        if via == "kernel":
+            x1, x2 = np.arange(m_, dtype=np.float64).reshape(-1, 1), np.arange(n_, dtype=np.float64).reshape(-1, 1)
+            fn = lambda a_, b_, Mx=Mx: Mx[np.ix_(a_[:, 0].astype(int), b_[:, 0].astype(int))]
+            return ops.Kernel(x1, x2, fn, t["bs"][0], t["bs"][1])
+        if via == "jacobian":
+            x = np.array(t["x"], dtype=np.float64)
+            Q = np.array(t["Q"], dtype=np.float64)
+            Mlin = Mx - np.einsum("j,ijk->ik", x, Q + Q.transpose(0, 2, 1))   # so that J(x) = Mx exactly
+            return ops.Jacobian(shim.QuadMap(Q, Mlin), x)
+        if via == "hessian":
+            return ops.Hessian(shim.QuadForm(Mx), np.zeros(n_, dtype=np.float64))
+        raise AssertionError(via)
     if k == "Sparse":
         ent = t["ent"]
         return ops.Sparse(vec([e[2] for e in ent], t["dt"]), np.array([e[0] for e in ent], dtype=np.int64),
@@ -393,7 +440,7 @@ def dense(t):
     import scipy.linalg as sl
     k = t["k"]
     C = np.complex128
-    if k in ("Dense", "Tri"):
+    if k in ("Dense", "Tri", "Gen"):
         return arr(t["a"], "complex128")
     if k == "Sparse":
         a = np.zeros((t["m"], t["n"]), dtype=C)
@@ -501,6 +548,9 @@ def coq(t):
     if k in ("Dense", "Tri"):
         m, n = shape(t)
         return f"Dense (of_list_mn {m} {n} {zmat(t['a'])})"
+    if k == "Gen":
+        m, n = shape(t)
+        return f"Gen (of_list_mn {m} {n} {zmat(t['a'])})"
     if k == "Sparse":
         return f"Sparse {t['m']} {t['n']} [" + ";".join(f"({i}%nat,{j}%nat,{zc(v)})" for i, j, v in t["ent"]) + "]"
     if k == "Diag":
@@ -542,7 +592,7 @@ def to_gauss(a):
 
 # ---------------------------------------------------------------- dtype skeleton (coq/Dtype.v)
 DTC = dict(int32="I32", int64="I64", float32="F32", float64="F64", complex64="C64", complex128="C128")
-LK = dict(Dense="LDense", Tri="LDense", Sparse="LSparse", Diag="LDiag", Scal="LScal", Tridiag="LTridiag", House="LHouse", Ident="LIdent", Perm="LPerm")
+LK = dict(Dense="LDense", Tri="LDense", Gen="LDense", Sparse="LSparse", Diag="LDiag", Scal="LScal", Tridiag="LTridiag", House="LHouse", Ident="LIdent", Perm="LPerm")
 
 
 def dsk(t):
